@@ -25,9 +25,17 @@ def _imports(files):
     names = set()
     for t in files.values():
         if t:
-            for m in re.finditer(r'^\s*import\s+"((?:[^"\\]|\\.)*)"', t, re.M):
+            for m in re.finditer(r'^\s*import\s*"((?:[^"\\]|\\.)*)"', t, re.M):
                 names.add(m.group(1).replace('\\"', '"').replace("\\\\", "\\").replace("\\n", "\n"))
     return names
+
+
+def _template(msg):
+    """Message text with names and numbers abstracted (mechanism key part)."""
+    t = msg.split("\n")[0]
+    t = re.sub(r"'[^']*'", "'X'", t)
+    t = re.sub(r"-?\d[\d_]*", "N", t)
+    return t[:70]
 
 
 def check_messages(errors, files, allow_synthetic=False):
@@ -50,7 +58,7 @@ def check_messages(errors, files, allow_synthetic=False):
                 continue
             loc = m.location
             if loc.is_synthetic and not allow_synthetic:
-                out.append(("synthetic-location", "user-visible message carries the internal 'compiler bug' location: %r" % (m.message,)))
+                out.append(("synthetic-location:" + _template(m.message), "user-visible message carries the internal 'compiler bug' location: %r" % (m.message,)))
                 continue
             text = files.get(m.source_file)
             if text is None:
@@ -60,7 +68,7 @@ def check_messages(errors, files, allow_synthetic=False):
             if not (1 <= sl <= len(lines) + 1) or sc < 1 or (sl <= len(lines) and sc > len(lines[sl - 1]) + 1) or (
                     sl == len(lines) + 1 and sc != 1):
                 if not (len(lines) == 0 and (sl, sc) == (1, 1)):
-                    out.append(("position-outside-file", "message %r at %s but file has %d lines%s" % (
+                    out.append(("position-outside-file:" + _template(m.message), "message %r at %s but file has %d lines%s" % (
                         m.message[:60], loc, len(lines),
                         (", line length %d" % len(lines[sl - 1])) if 1 <= sl <= len(lines) else "")))
     # rendering with the sources supplied must not fail
@@ -211,8 +219,14 @@ def gen_case(rng, corpus):
     return "big", {main: big}, main
 
 
-def batch(arg):
+def _warm():
     common.repo_on_path()
+    from compiler.front_end import parser
+    parser.module_parser()  # load the 5 s tables outside any per-case budget
+
+
+def batch(arg):
+    _warm()
     corpus = [c for c in textgen.corpus() if c[1].strip()]
     out = {"viol": [], "n": 0, "status": {}, "kinds": {}, "timeouts": 0, "cli": 0, "samples": [], "distinct": [],
            "msgs": 0}
